@@ -345,7 +345,28 @@ func checkC01(c WKCase, st *stats.Collector) error {
 			return err
 		}
 	}
+	// the same reads with the caller's buffers handed back, as the API documentation recommends
+	// (Lexer.Next(buf); NextInto(msg) with one Message; the deprecated Next(buf)): same content
+	bufMode := 1 + int(wl.Hash(c)%2)
+	{
+		res := mc.LexAll(bytes.NewReader(file), mc.LexParams{SkipMagic: k.SkipMagic, Custom: custom, ValidateCRC: wl.Hash(c)%4 < 2, AttCRC: true, BufMode: bufMode}, false)
+		if err := checkSequential(w, k, &res, fmt.Sprintf("lexer(caller buffer mode %d)", bufMode)); err != nil {
+			return err
+		}
+	}
 	msgs := w.Messages()
+	if !k.SkipMagic && !custom {
+		rr := mc.ReadMessagesMode(bytes.NewReader(file), bufMode, false, false, 0, mcap.UsingIndex(false))
+		if rr.Panic != "" {
+			return pk.Failf("panic", "non-indexed iterator (drive mode %d) panicked: %s", bufMode, rr.Panic)
+		}
+		if !rr.Clean() {
+			return pk.Failf("iter-error", "non-indexed iterator (drive mode %d): open=%v err=%v after %d items", bufMode, rr.OpenErr, rr.Err, len(rr.Items))
+		}
+		if err := compareDefaultWindow(st, "C01", fmt.Sprintf("non-indexed iterator (drive mode %d: 1 = NextInto(reused msg), 2 = Next(buf))", bufMode), rr.Items, msgs, nil); err != nil {
+			return err
+		}
+	}
 	ir := mc.ReadMessages(bytes.NewReader(file), false, true, 0, mcap.UsingIndex(false))
 	if ir.Panic != "" {
 		return pk.Failf("panic", "non-indexed iterator panicked: %s", ir.Panic)
@@ -398,7 +419,7 @@ func checkC01(c WKCase, st *stats.Collector) error {
 			break
 		}
 	}
-	st.Case(wl.Hash(c), nontrivial, 3, classes...)
+	st.Case(wl.Hash(c), nontrivial, 5, classes...)
 	if nontrivial && st.WantSample() {
 		st.Sample(WKCase{W: w.Trunc(24), K: k})
 	}
